@@ -324,7 +324,7 @@ func childMain(c *vkit.Ctx) {
 		runtime.GOMAXPROCS(sc.Procs)
 	}
 	c.LogCase(sc.ID + ":" + sc.Family)
-	obs, err := e2e.Run(sc, c.WorkDir(), e2e.Hooks{BeforeStop: func(gen int, a *e2e.Agent, ups []*upstream.Server) {
+	obs, err, attempts, expired := e2e.RunStable(sc, c.WorkDir(), e2e.Hooks{BeforeStop: func(gen int, a *e2e.Agent, ups []*upstream.Server) {
 		if !sc.Gens[gen].WaitAcked {
 			return
 		}
@@ -335,8 +335,12 @@ func childMain(c *vkit.Ctx) {
 			}
 			time.Sleep(2 * time.Millisecond)
 		}
-	}})
+	}}, func(o *e2e.Obs) bool { fs, _ := Judge(o); return len(fs) > 0 })
 	c.Eval(1)
+	if attempts > 1 {
+		c.Event("attempts_set_aside_after_safety_timeout_expiry", attempts-1)
+		c.Sample(map[string]any{"scenario": sc.ID, "family": sc.Family, "set_aside": expired})
+	}
 	if err != nil {
 		c.Inconclusive("scenario " + sc.ID + ": " + err.Error())
 		return
